@@ -54,18 +54,31 @@
     ghost log to the writer's content layout, with the writer invariant and the hint contract at
     every call, run along `Proofs/ServerQuery`), its own additional records are address records
     (C05's `LogsT.inner`), and the answering phase keeps the EDNS payload size.
-  Not proved (hence `C09_full` is not stated as a theorem), precisely:
-  (1) the reply to a signed request whose TSIG record does not fit (TC / NOERROR without TSIG, C10 (e))
-      is not lifted to the decoding;
-  (2) the decoded theorems take the API's guarantees as hypotheses (`CfgWF cfg`: zones filed under
-      their apex, non-empty RRsets; server payload size a 16-bit value), which `C09_full` omits.
-  The differential check (audit tags `C09:*`) covers these.
+  * `C09_decoded_signed_nofit` — the reply to a signed request whose reply TSIG does not fit (RFC 8945
+    §5.3, the repair of D03; `ServerContent.signed_nofit_final`): every decoding has TC set, RCODE 0,
+    no answer / authority data, and an additional section that is exactly the OPT record iff the scan
+    reached one (no TSIG record).
+  * **`C09 : C09_full`** — the property at full strength, by cases over the scan's verdict
+    (`C09_decoded_unsigned`, `C09_decoded_answer`, and for every request whose scan reaches a TSIG
+    record `ServerContent.signed_final_good`: whatever the TSIG step decides — unknown key, bad MAC,
+    bad time, authenticated; reply TSIG fitting or not; no-data verdict or answered by a loaded zone —
+    the writer handed to `finish` is `Good`, its own additional records are address records, and its
+    EDNS slot is set iff the scan reached an OPT).
+  Recorded correction of the statement: `C09_full` as first written quantified over every `Cfg`
+  value; it now carries the two hypotheses the decoded theorems need, which are what the library API
+  guarantees of a configuration — `CfgWF cfg` (each catalog entry filed under the apex of its zone,
+  apexes are names, stored RRsets non-empty) and `cfg.payload ≤ 65535` (the payload size is a `u16`
+  in the API; a larger `Nat` in the model would not fit the OPT record's CLASS field).  No
+  `NoTruncation` hypothesis is needed: truncated and SERVFAIL answers are covered (the epilogues of
+  `handle_non_axfr_query` keep the tie between log and layout).
+  The differential check (audit tags `C09:*`) covers all of it as well.
 -/
 import QV.Proofs.ServerProps
 import QV.Proofs.ServerEcho
 import QV.Proofs.ServerSigned
 import QV.Proofs.ServerSignedDecode
 import QV.Proofs.ServerAnswerDecode
+import QV.Proofs.ServerSignedNoFit
 
 namespace QV.C09
 open QV QV.Spec.Server QV.ServerScan
@@ -78,6 +91,8 @@ def optRecordOctets (serverSize upper : Nat) : List UInt8 :=
 def C09_full : Prop :=
   ∀ (cfg : Server.Cfg) (tr : Server.Transport) (now bufLen : Nat) (req : Bytes),
     minBuf tr cfg.payload ≤ bufLen → 512 ≤ cfg.payload → req.size ≤ Rdata.USIZE_MAX →
+    -- what the library API guarantees of a configuration (recorded correction, see the header)
+    ServerSafety.CfgWF cfg → cfg.payload ≤ 65535 →
     ∀ b, Server.handleMessage cfg tr now bufLen req = .ok (some b) →
       -- `d` = the independent decoding of the response
       ∀ d, Spec.specDecodeMsg b = some d →
@@ -475,6 +490,77 @@ theorem C09_decoded_signed_answer (cfg : Server.Cfg) (hcfg : ServerSafety.CfgWF 
   refine ⟨t, mw, r', h1, h2, fun r'' S hT hev b hb d hd => ?_⟩
   obtain ⟨nowT, alg, key, kn, F, mac, bd, _, _, _, _, _, hf, hG, _, hty, _, he⟩ := h3 r'' S hT hev b hb
   exact (C09_optClauses_of_good cfg.payload hp16 _ F bd hG hty he b mac hf d hd).1
+
+/-- **`C09_full`'s OPT clauses for signed requests whose reply TSIG does not fit** (RFC 8945 §5.3, the
+    repair of D03: TC set, RCODE 0, no TSIG record), with the rest of the decoded shape: no answer or
+    authority data, and the additional section is exactly the OPT record iff the scan reached one -/
+theorem C09_decoded_signed_nofit (cfg : Server.Cfg) (tr : Server.Transport) (now bufLen : Nat) (req : Bytes)
+    (hbuf : minBuf tr cfg.payload ≤ bufLen) (hpay : 512 ≤ cfg.payload) (hp16 : cfg.payload ≤ 65535)
+    (hreq : req.size ≤ Rdata.USIZE_MAX)
+    (hr : (specScanWith (catKind cfg) cfg.payload req).respond = true)
+    (hv : (specScanWith (catKind cfg) cfg.payload req).verdict = .tsigReached) :
+    ∃ (t : Tsig.ReadTsigRr) (mw : Bytes) (r' : Reader.Reader), r'.octets = req ∧ r'.cursor ≤ req.size ∧
+      ∀ nowT kn, Tsig.TimeSigned.tryFromUnix now = some nowT → Writer.WName.parse t.keyName = some (kn, []) →
+        ServerContent.NoFit cfg nowT t mw kn (preTsigState cfg tr bufLen req) →
+        ∀ b, Server.handleMessage cfg tr now bufLen req = .ok (some b) →
+          ∀ d, Spec.specDecodeMsg b = some d →
+            OptClauses cfg.payload (specScanWith (catKind cfg) cfg.payload req).edns d ∧
+            d.tc = true ∧ d.rcode = 0 ∧ d.an = [] ∧ d.ns = [] ∧
+            d.ar.length = (if (specScanWith (catKind cfg) cfg.payload req).edns then 1 else 0) ∧
+            ∀ o ∈ d.ar, o.ty = 41 := by
+  obtain ⟨t, mw, r', h1, h2, h3⟩ := ServerContent.signed_nofit_final cfg tr now bufLen req hbuf hpay hp16 hreq hr hv
+  refine ⟨t, mw, r', h1, h2, fun nowT kn hnow hkn hnf b hb d hd => ?_⟩
+  obtain ⟨F, mac, hf, hG, hts, he, hh⟩ := h3 nowT kn hnow hkn hnf b hb
+  obtain ⟨hq1, hq2, hq3⟩ := qBody_norecs (specScanWith (catKind cfg) cfg.payload req).question
+  obtain ⟨c1, _, _⟩ := C09_optClauses_of_good cfg.payload hp16 _ F _ hG (by rw [hq3]; simp) he b mac hf d hd
+  obtain ⟨r1, r2, _, r4, r5, r6, r7⟩ := ServerContent.decoded_nofit F _ ⟨hq1, hq2, hq3⟩ hG hts hh b mac hf d hd
+  refine ⟨c1, r1, r2, r4, r5, ?_, r7⟩
+  rw [r6]
+  cases hed : (specScanWith (catKind cfg) cfg.payload req).edns <;> rw [hed] at he <;>
+    cases hw : F.edns <;> rw [hw] at he <;> simp at he ⊢
+
+/-- **C09 at full strength** (statement amended with the API's guarantees, see the header): for every
+    configuration the API can hold, every transport, clock, buffer and request, every independent
+    decoding of the response has exactly one OPT record — owner root, CLASS = the server's payload
+    size, version 0 — iff the scan reached an OPT in the request's additional section, and none
+    otherwise; a BADVERS response has extended-RCODE octet 1, RCODE bits 0 and no answer / authority
+    data.  By cases over the scan's verdict: decided by the scan alone (`C09_decoded_unsigned`), a
+    loaded zone answers (`C09_decoded_answer`), a TSIG record was reached
+    (`ServerContent.signed_final_good`: rejected or authenticated, reply TSIG fitting or not, no-data
+    or answered — the final writer is `Good` with the EDNS slot set iff the scan reached an OPT). -/
+theorem C09 : C09_full := by
+  intro cfg tr now bufLen req hbuf hpay hreq hcfg hp16 b hb d hd
+  have hr : (specScanWith (catKind cfg) cfg.payload req).respond = true := by
+    cases hres : (specScanWith (catKind cfg) cfg.payload req).respond with
+    | true => rfl
+    | false =>
+      have := (handleMessage_none_iff cfg tr now bufLen req hbuf hpay (catKind cfg)).mpr hres
+      rw [this] at hb; cases hb
+  cases hv : (specScanWith (catKind cfg) cfg.payload req).verdict with
+  | answer =>
+    obtain ⟨c1, c2⟩ := C09_decoded_answer cfg hcfg tr now bufLen req hbuf hpay hp16 hreq hv b hb d hd
+    exact ⟨c1, c2, fun h => by cases h⟩
+  | tsigReached =>
+    obtain ⟨F, mac, bd, hf, hG, _, hty, he⟩ :=
+      ServerContent.signed_final_good cfg hcfg tr now bufLen req hbuf hpay hp16 hreq hr hv b hb
+    obtain ⟨⟨c1, c2⟩, _⟩ := C09_optClauses_of_good cfg.payload hp16 _ F bd hG hty he b mac hf d hd
+    exact ⟨c1, c2, fun h => by cases h⟩
+  | formErr =>
+    obtain ⟨⟨c1, c2⟩, _, _, _⟩ := C09_decoded_unsigned cfg tr now bufLen req hbuf hpay hp16 hreq hr (by rw [hv]; rfl) b hb d hd
+    exact ⟨c1, c2, fun h => by cases h⟩
+  | notImp =>
+    obtain ⟨⟨c1, c2⟩, _, _, _⟩ := C09_decoded_unsigned cfg tr now bufLen req hbuf hpay hp16 hreq hr (by rw [hv]; rfl) b hb d hd
+    exact ⟨c1, c2, fun h => by cases h⟩
+  | refused =>
+    obtain ⟨⟨c1, c2⟩, _, _, _⟩ := C09_decoded_unsigned cfg tr now bufLen req hbuf hpay hp16 hreq hr (by rw [hv]; rfl) b hb d hd
+    exact ⟨c1, c2, fun h => by cases h⟩
+  | servFailZone =>
+    obtain ⟨⟨c1, c2⟩, _, _, _⟩ := C09_decoded_unsigned cfg tr now bufLen req hbuf hpay hp16 hreq hr (by rw [hv]; rfl) b hb d hd
+    exact ⟨c1, c2, fun h => by cases h⟩
+  | badVers =>
+    obtain ⟨⟨c1, c2⟩, c3, c4, c5⟩ := C09_decoded_unsigned cfg tr now bufLen req hbuf hpay hp16 hreq hr (by rw [hv]; rfl) b hb d hd
+    obtain ⟨c6, c7⟩ := c5 hv
+    exact ⟨c1, c2, fun _ => ⟨c6, c7, c3, c4⟩⟩
 
 /-! ### the decision at an OPT record (spec level) -/
 
